@@ -492,6 +492,53 @@ func c10BeforeServe(w *World) {
 		return
 	}
 	e := ch.E
+	if w.Chance(1, 2, "close-races-with-serve") {
+		// Close and Serve issued at the same moment by two goroutines: whichever gets
+		// there first, both return, Serve with ErrServerClosed, and nothing of the
+		// server is active once Close has returned
+		w.Probe("close-races-with-serve")
+		var sc *Call
+		w.Go("late-serve", func() {
+			for i, n := 0, w.Draw(12, "serve-yields"); i < n; i++ {
+				w.Yield("c10.bs.serve")
+			}
+			sc = e.Serve("10.0.0.5:179")
+		})
+		for i, n := 0, w.Draw(12, "close-yields"); i < n; i++ {
+			w.Yield("c10.bs.close")
+		}
+		c := e.Close()
+		if !w.WaitUntil("c10.bs.both", 30*time.Second, func() bool { return c.Done() && sc != nil && sc.Done() }) {
+			w.Violate("C10/return/never-close-racing-serve", "Close and Serve issued together: Close returned=%v, Serve returned=%v after 30 s; alive: %s", c.Done(), sc != nil && sc.Done(), w.aliveSummary())
+			return
+		}
+		if !errors.Is(sc.Err, corebgp.ErrServerClosed) {
+			w.Violate("C10/serve-result/close-racing-serve", "Serve racing with Close returned %v, want ErrServerClosed", sc.Err)
+			return
+		}
+		w.Sleep(time.Minute)
+		w.NonTrivial = true
+		w.Rel(fmt.Sprint("close-races-with-serve", len(w.Net.AllDials()) > 0))
+		for _, d := range w.Net.AllDials() {
+			if d.Seq > c.RetSeq {
+				w.Violate("C10/activity-after-shutdown", "dial attempt %d was made after Close (racing with Serve) had returned", d.ID)
+				return
+			}
+		}
+		for _, pl := range ch.AllPlugs() {
+			for _, cb := range pl.CBs {
+				if cb.Enter > c.RetSeq {
+					w.Violate("C10/callbacks/after-close-racing-serve", "plugin callback %s started after Close (racing with Serve) had returned", cb.Kind)
+					return
+				}
+			}
+		}
+		w.Quiesce()
+		if lt := w.LibTasksAlive(); len(lt) > 0 {
+			w.Violate("C10/leak/close-racing-serve", "%d corebgp goroutine(s) alive after Close and Serve returned, e.g. %s at %s", len(lt), lt[0].ID, lt[0].Site)
+		}
+		return
+	}
 	c := e.Close()
 	if !w.WaitUntil("c10.bs", 10*time.Second, c.Done) {
 		w.Violate("C10/return/never-close-before-serve", "Close on a server that was never served did not return")
